@@ -477,7 +477,9 @@ class TextCanvas(Canvas):
             (0 <= trim_left < maxcol) and (cols > 0 and trim_left + cols <= maxcol)
         ):  # a zero-width canvas (e.g. an empty fixed Text) has rows with nothing in them
             raise ValueError(trim_left)
-        if not ((0 <= trim_top < maxrow) and (rows > 0 and trim_top + rows <= maxrow)):
+        if (maxrow or trim_top or rows) and not (
+            (0 <= trim_top < maxrow) and (rows > 0 and trim_top + rows <= maxrow)
+        ):  # likewise a canvas without rows has no rows to yield
             raise ValueError(trim_top)
 
         if trim_top or rows < maxrow:
